@@ -123,7 +123,7 @@ func parsedOwn(t hx.TB, test string, c tcase) int {
 func TestParsedTypesBelongToTheCaller(t *testing.T) {
 	const test = "ParsedTypesBelongToTheCaller"
 	hx.Rule(test, "rapid (universe, 2..5 types) embedded in a module (type definitions, one declaration per type), printed to text x; history: parse x, print (s1), edit every type object the parser created for a spelled type in place through the exported fields (bit width, float kind, address space, length, scalable, packed, variadic), parse x again: the second parse must print exactly s1, and a fresh constructor-built copy of each type must still be Equal to its own print-and-parse image (Equal is preserved by printing and parsing whatever was edited earlier in the process); non-trivial = at least 4 type objects edited")
-	hx.Check(t, test, hx.N(600, 20000), func(rt *rapid.T) {
+	hx.Check(t, test, hx.N(600, 100000), func(rt *rapid.T) {
 		u := gen.GenUniverseWith(rt, 4, true)
 		c := tcase{U: u}
 		n := rapid.IntRange(2, 5).Draw(rt, "ntypes")
